@@ -36,7 +36,7 @@ func (s *surf4) setup(c *child) error {
 	return nil
 }
 
-func (s *surf4) close()                              { s.e.close() }
+func (s *surf4) close()                          { s.e.close() }
 func (s *surf4) timeout(in *Input) time.Duration { return 10 * time.Second }
 
 // genPool builds one valid pool over 10.a.b.0/24 with sorted, disjoint, non-adjacent ranges.
